@@ -59,7 +59,7 @@ def exec_events(recorded: List[Dict]) -> List[Dict]:
 def run(ctx: Ctx):
     quick = ctx.tier == "quick"
     rng = random.Random(ctx.seed * 8191 + 9)
-    ctx.rule = ("generated inputs of 8 queries; every run of one (input, mode) must give byte-identical XMAP files "
+    ctx.rule = ("generated inputs of 11 queries (incl. molecules of 1-5 labels that yield rows without pairs); every run of one (input, mode) must give byte-identical XMAP files "
                 "(header lines that echo arguments / host / absolute paths removed): the unmodified CLI with "
                 "-c in {1,2,3,5,8,16} and repetitions, each in a fresh interpreter with a different PYTHONHASHSEED "
                 "(molecules with an inverted part give first- and second-pass records on opposite strands), Program.run in process with a sequential map, and Program.run "
@@ -85,8 +85,8 @@ def run(ctx: Ctx):
     cli_cpus = [1, 3, 8] if quick else [1, 2, 3, 5, 8, 16]
     lines, tags = [], []
     for k in range(n_inputs):
-        inp = pipecases.make_input(rng, n_refs=2, n_qry=8, kinds=["samestart", "flankdup", "samestart", "mirror", "flankdup", "samestart",
-                                                   "inversion", "inversion"],
+        inp = pipecases.make_input(rng, n_refs=2, n_qry=11, kinds=["samestart", "flankdup", "samestart", "mirror", "flankdup", "samestart",
+                                                    "inversion", "inversion", "tiny", "tiny", "tiny"],
                                    ref_labels=(330, 360), decimals=False, lattice=100)
         wd = os.path.join(ctx.workdir, f"c09-{k}")
         rp, qp = pipecases.write_input(wd, inp, "in")
